@@ -397,6 +397,16 @@ def exec_step(ctx, step, host=None):
     except Exception as e:
         res = e.with_traceback(None)
         status = "exc"
+    except BaseException as e:
+        # the library translated an injected exception into a BaseException of its own (e.g. cleans up after Ctrl-C and
+        # raises a fresh KeyboardInterrupt): still "whatever the library made of it".  Without an injection it is not
+        # the harness's business to swallow it.
+        injected = ((tracer is not None and tracer.fired_at is not None) or seam.raised
+                    or (my_cb is not None and my_cb["fired"]))
+        if not injected or not isinstance(e, (KeyboardInterrupt, MemoryError)):
+            raise
+        res = None
+        status = "interrupted"
     fired = ctx.disk.disarm()
     ctx.cb_fault = outer_cb
     if my_cb is not None and my_cb["fired"] and status != "skip":
